@@ -27,6 +27,7 @@ def ruleFormats : List (String × List String) := [
   ("fieldNotOutput", ["Expected output type for field \"%s\" on \"%s\" but got \"%s\""]),
   ("dupArg", ["Duplicate argument \"%s\" on \"%s\""]),
   ("argNotInput", ["Expected input type for argument \"%s\" on \"%s\" but got \"%s\""]),
+  ("resNotCallable", ["Resolver for \"%s\" is not callable"]),
   ("resPositional", ["Resolver for \"%s\" must accept 3 positional parameters, found (%s)"]),
   ("resCollides", ["Argument \"%s\" on \"%s\" collides with a positional resolver parameter"]),
   ("resPosOnly", ["Resolver parameter for argument \"%s\" on \"%s\" must not be positional only"]),
@@ -64,8 +65,12 @@ def cfgPreciseResolver : Bool := true
 def cfgExtraArgRequired : Bool := true
 def cfgSubscriptionChecked : Bool := true
 def cfgCatchesTypeError : Bool := true
+def cfgIfaceResolverChecked : Bool := false
+def cfgNotCallableReported : Bool := true
 /-- `Schema.validate()` only trusts the cached verdict for the resolver callables it was computed with (fix C13-HH1) -/
 def cfgCacheTracksAssignments : Bool := true
+/-- the cached verdict also stands for the ARGUMENTS of every field it was computed with (fix C13-HHH3) -/
+def cfgCacheTracksArguments : Bool := true
 /-- the resolver-signature rule inspects the callable itself, not what it `functools.wraps` (fix C13-HH2) -/
 def cfgOuterSignature : Bool := true
 
